@@ -141,7 +141,7 @@ def apply_op(m, lcf, ab, slots, o, x, y, z, w, step_no):
             explicit, name, allow = rid, rname, False
         else:
             explicit = AIDS[x]
-            name = 'fresh%d' % step_no if y == 0 else ab.assets[0]['name'] if ab.assets else 'fresh'
+            name = 'fresh%d' % step_no if y == 0 else ('N:1' if y == 2 else (ab.assets[0]['name'] if ab.assets else 'fresh'))
             allow = bool(z)
         obj = ns.N(name=name)
         live_ids = [a['id'] for a in ab.assets]
@@ -236,17 +236,18 @@ def apply_op(m, lcf, ab, slots, o, x, y, z, w, step_no):
             ab.attackers.append({'obj': t, 'id': t.id, 'name': t.name, 'eps': []})
     elif o == 6:
         valid = bool(ab.attackers)
-        t = ab.attackers[0]['obj'] if valid else AttackerAttachment(name='ghost')
+        ti = (z % len(ab.attackers)) if valid else 0
+        t = ab.attackers[ti]['obj'] if valid else AttackerAttachment(name='ghost')
         try:
             m.remove_attacker(t)
         except Exception as e:
             raised = e
         if raised is None and valid:
-            ab.attackers = ab.attackers[1:]
+            ab.attackers = [u for u in ab.attackers if u['obj'] is not t]
     elif o == 7 or o == 8:
         if not ab.attackers:
             return ''
-        t = ab.attackers[0]
+        t = ab.attackers[z % len(ab.attackers)]
         obj = slots[x % len(slots)]
         st = STEPS[y % 2]
         if not ab.live(obj):
@@ -283,13 +284,15 @@ def body_hist(cube, **kw):
     bits = {b: bool(kw[b]) for b in ('x2', 'l01', 'l12', 'l00', 'pk', 'att')}
     bits['ps'] = bool(kw['ps']) if 'ps' in kw else False
     bits['nm'] = bool(kw['nm']) if 'nm' in kw else False
+    bits['att2'] = bool(kw['att2']) if 'att2' in kw else False
+    bits['un'] = bool(kw['un']) if 'un' in kw else False
     ops = []
     for s in range(k):
         o = idx(kw['o%d' % s], len(OPS))
         # arguments are read lazily
         x = idx(kw['x%d' % s], 5) if o in (0, 1, 2, 3, 4, 5, 7, 8) else 0
         y = idx(kw['y%d' % s], 4) if o in (0, 2, 4, 7, 8) else 0
-        z = idx(kw['z%d' % s], 2) if o == 0 else 0
+        z = idx(kw['z%d' % s], 2) if o in (0, 6, 7, 8) else 0
         ops.append((o, x, y, z))
     with notrace(), reclimit():
         lg, lcf = langs.build_lang(L_MINI())
@@ -298,7 +301,10 @@ def body_hist(cube, **kw):
         ab = Abs()
         slots = []
         for i in range(3 if bits['x2'] else 2):
-            a = lcf.ns.N(name=('a0:5' if (i == 1 and bits['nm']) else 'a%d' % i))
+            if i == 1 and bits['un']:
+                a = lcf.ns.N()                 # no name: the model generates '<type>:<id>'
+            else:
+                a = lcf.ns.N(name=('a0:5' if (i == 1 and bits['nm']) else 'a%d' % i))
             m.add_asset(a)
             ab.assets.append({'obj': a, 'id': int(a.id), 'name': str(a.name)})
             ab.ever_ids.append(int(a.id)); ab.ever_names.append(str(a.name))
@@ -324,6 +330,13 @@ def body_hist(cube, **kw):
             m.add_attacker(t)
             t.add_entry_point(slots[1], 'a')
             ab.attackers.append({'obj': t, 'id': t.id, 'name': t.name, 'eps': [(slots[1], ['a'])]})
+        if bits['att2']:
+            t2 = AttackerAttachment(name='att two')
+            m.add_attacker(t2)
+            t2.add_entry_point(slots[0], 'c')
+            t2.add_entry_point(slots[1], 'a')
+            t2.add_entry_point(slots[1], 'c')
+            ab.attackers.append({'obj': t2, 'id': t2.id, 'name': t2.name, 'eps': [(slots[0], ['c']), (slots[1], ['a', 'c'])]})
         r = observe(m, ab, slots)
         if r:
             return 'pre-state %s: %s' % (bits, r)
@@ -336,13 +349,13 @@ def body_hist(cube, **kw):
 
 def queries(tier):
     k = 1 if tier == 'quick' else 2
-    ps = [B(b) for b in ('x2', 'l01', 'l12', 'l00', 'pk', 'att', 'ps', 'nm')]
+    ps = [B(b) for b in ('x2', 'l01', 'l12', 'l00', 'pk', 'att', 'ps', 'nm', 'att2', 'un')]
     for s in range(k):
         ps += [I('o%d' % s, 0, len(OPS) - 1), I('x%d' % s, 0, 4), I('y%d' % s, 0, 3), I('z%d' % s, 0, 1)]
     wit = []
     for o in range(len(OPS)):
         w = {p.name: (1 if p.typ == 'int' else True) for p in ps}
-        w.update({'o0': o, 'pk': False, 'ps': (o % 2 == 1), 'l12': (o % 2 == 0), 'nm': False})
+        w.update({'o0': o, 'pk': False, 'ps': (o % 2 == 1), 'l12': (o % 2 == 0), 'nm': False, 'att2': False, 'un': False})
         if k > 1:
             w['o1'] = 9 if o == 1 else (o + 1) % len(OPS)
         wit.append(({'k': k}, w))
@@ -376,8 +389,8 @@ def queries(tier):
                         bound='association p=[a0,a1], q=[a0,a2] (asset 0 in both fields): every pair of removals (remove_asset, remove_asset_from_association, '
                               'then also remove_association) with every argument'))
     return qs + [Query(name='hist', body=body_hist, params=ps, cubes=[{'k': k}], split=['o0', 'x0'] if k == 1 else ['o0', 'o1'],
-                       pre=['not ps or (l00 and x2 and not pk and not l12)', 'not nm or (not l12 and not l00 and not pk)'] if k == 1 else
-                       ['x2 and att and not l12 and not pk', 'not ps or l00', 'not nm or not l00'],
+                       pre=['not ps or (l00 and x2 and not pk and not l12)', 'not nm or (not l12 and not l00 and not pk)', 'not att2 or (not l12 and not l00 and not pk and not nm)', 'not un or (not nm and not att2 and not l00 and not pk and not l12)'] if k == 1 else
+                       ['x2 and att and not l12 and not pk', 'not ps or l00', 'not nm or not l00', 'not att2 or (not l00 and not nm)', 'not un or (not nm and not att2 and not l00)'],
                   timeout=600 if tier == 'quick' else 1700, witnesses=wit,
                   bound='language L_MINI (type N, self-association PQ(p,q)); pre-state from 7 bits (third asset, links 0-1, 1-2, self-link 0-0 alone or with other members in both fields, one association '
                         'holding two assets in one field, attacker with an entry point), built through the API; then every sequence of %d operation(s) from %s '
